@@ -1,4 +1,5 @@
 """C02 Boolean connectives, ITE, constants: terminal cases + wiring"""
+import ecache
 import eunits
 import ewrap
 import kinds
@@ -28,4 +29,9 @@ def run(ctx):
     ctx.explain("E-UNITS: no variable number meets a level number (both are u32) in the rules crate(s).")
     nfn, _ = eunits.run(ctx, F, crates=("oxidd_rules_bdd", "oxidd_rules_zbdd"))
     ctx.floor("E-UNITS", "function bodies analysed", nfn, 100)
+    ctx.explain("E-CACHE: in this kind's algorithm functions the apply-cache key of every insertion equals the key "
+                "of the lookup, the memoised value is the returned value, hit and miss paths agree, tags are disjoint.")
+    n = ecache.run(ctx, F, crates=("oxidd_rules_bdd::", "oxidd_rules_zbdd::"))
+    ctx.floor("E-CACHE", "cache-using algorithm functions", n, 15)
+    ecache.check_hit_equals_miss(ctx, F, crates=("oxidd_rules_bdd::", "oxidd_rules_zbdd::"))
     ctx.not_decided = "the recursive step (Shannon expansion, cofactor collection), eval, cofactors"
